@@ -78,19 +78,33 @@ struct LaxSpec {
 
 /// the same diagram as a lax term in which every hyperedge has its own fresh nodes, unified with
 /// the original ones (pending, not yet quotiented)
-fn exploded(p: &Plain) -> lax::OpenHypergraph<L, L> {
+fn exploded(p: &Plain, originals_last: bool) -> lax::OpenHypergraph<L, L> {
     let mut f = lax::OpenHypergraph::<L, L>::empty();
-    for l in &p.w {
-        f.new_node(*l);
+    // the original nodes come first or last: in the second case quotienting renumbers the
+    // interface nodes (they are merged into classes that first occur earlier)
+    let mut orig: Vec<lax::NodeId> = vec![];
+    if !originals_last {
+        orig = p.w.iter().map(|l| f.new_node(*l)).collect();
     }
+    let mut fresh: Vec<(Vec<lax::NodeId>, Vec<lax::NodeId>)> = vec![];
     for e in &p.e {
         let (_, (s, t)) = f.new_operation(e.l, e.s.iter().map(|v| p.w[*v]).collect(), e.t.iter().map(|v| p.w[*v]).collect());
-        for (fresh, orig) in s.iter().zip(e.s.iter()).chain(t.iter().zip(e.t.iter())) {
-            f.unify(*fresh, lax::NodeId(*orig));
+        fresh.push((s, t));
+    }
+    if originals_last {
+        orig = p.w.iter().map(|l| f.new_node(*l)).collect();
+    }
+    for (e, (s, t)) in p.e.iter().zip(fresh.iter()) {
+        for (fr, o) in s.iter().zip(e.s.iter()).chain(t.iter().zip(e.t.iter())) {
+            if originals_last {
+                f.unify(orig[*o], *fr);
+            } else {
+                f.unify(*fr, orig[*o]);
+            }
         }
     }
-    f.sources = p.s.iter().map(|v| lax::NodeId(*v)).collect();
-    f.targets = p.t.iter().map(|v| lax::NodeId(*v)).collect();
+    f.sources = p.s.iter().map(|v| orig[*v]).collect();
+    f.targets = p.t.iter().map(|v| orig[*v]).collect();
     f
 }
 impl lax::functor::Functor<L, L, L, L> for LaxSpec {
@@ -100,7 +114,7 @@ impl lax::functor::Functor<L, L, L, L> for LaxSpec {
     fn map_operation(&self, a: &L, source: &[L], target: &[L]) -> lax::OpenHypergraph<L, L> {
         let img = self.spec.image(*a, source, target);
         if self.pending {
-            exploded(&img)
+            exploded(&img, (*a as usize + source.len()) % 2 == 0)
         } else {
             lax::OpenHypergraph::from_strict(B::<VecKind>::to_dev(&img))
         }
@@ -120,7 +134,7 @@ fn lax_observe(c: &Case) -> Result<Vec<Pair>, String> {
     // the same functor with images that still carry pending unifications, applied to an argument
     // that carries pending unifications too
     let fu2 = LaxSpec { spec: c.spec.clone(), pending: true };
-    let r2 = fu2.map_arrow(&exploded(&c.f));
+    let r2 = fu2.map_arrow(&exploded(&c.f, c.schedules % 2 == 0));
     let p2 = B::<VecKind>::from_dev(&r2.to_strict()).map_err(|e| format!("lax F(f) with pending unifications: ill-formed result: {}", e))?;
     let id = lax::functor::dyn_functor::Identity.map_arrow(&lf);
     let pid = B::<VecKind>::from_dev(&id.to_strict()).map_err(|e| format!("lax Id(f): ill-formed result: {}", e))?;
